@@ -4,6 +4,7 @@
    Part 2: the shared filter Executor::hasToLog under every arrival order. *)
 From CV Require Import Base.Bytes Base.Glob Supp.Defs Par.Gen_Severity Par.Defs Par.DecProofs
                        Par.CodecProofs Par.MergeProofs.
+From CV Require Supp.ExecDefs Supp.ExecProofs Supp.ThreadProofs Par.EqSingle Par.EqProcess Par.EqWitness.
 Require Import Permutation.
 
 (* the receiving side holds the sender's message with fixInvalidChars applied to
@@ -122,6 +123,79 @@ Theorem C15_update_state_order_independent us us' :
   Permutation us us' -> forall l, fold_left update_state us l = fold_left update_state us' l.
 Proof. exact (update_state_order_independent us us'). Qed.
 Print Assumptions C15_update_state_order_independent.
+
+(* ------------------------------------------------------------------ *)
+(* parallel_eq_single, on C24's whole-run model (Supp/ExecDefs.v whole_run: per-file
+   logger, hasToLog, state transfer, whole-program findings through the main logger,
+   unmatched-suppression reports, final status) *)
+Module EQ.
+Import Supp.ExecDefs Supp.ExecProofs Supp.ThreadProofs Par.EqSingle Par.EqProcess Par.EqWitness.
+
+(* the same set of texts reaches the output (StdLogger prints each text once), thread and process *)
+Theorem C15_parallel_reported_eq_single pm k cfg n f fs wp o1 o2 :
+  whole_run pm None cfg n f fs wp = Some o1 -> whole_run pm (Some k) cfg n f fs wp = Some o2 ->
+  Forall (inline_present n) fs -> Forall macro_local n ->
+  forall t, In t (map snd (o_reported o1)) <-> In t (map snd (o_reported o2)).
+Proof. exact (parallel_reported_eq_single pm k cfg n f fs wp o1 o2). Qed.
+Print Assumptions C15_parallel_reported_eq_single.
+
+Theorem C15_parallel_status_eq_single pm k cfg n f fs wp o1 o2 :
+  whole_run pm None cfg n f fs wp = Some o1 -> whole_run pm (Some k) cfg n f fs wp = Some o2 ->
+  Forall (inline_present n) fs -> o_unmatched o2 = o_unmatched o1 -> o_status o2 = o_status o1.
+Proof. exact (parallel_status_eq_single pm k cfg n f fs wp o1 o2). Qed.
+Print Assumptions C15_parallel_status_eq_single.
+
+(* all three observables, under: pairwise different suppressions, inline suppressions known
+   to the list, within one file the rendered text identifies the finding (texts_ok), macro
+   suppressions are file-local *)
+Theorem C15_parallel_eq_single_thread pm cfg n f fs wp o1 o2 :
+  whole_run pm None cfg n f fs wp = Some o1 -> whole_run pm (Some EThread) cfg n f fs wp = Some o2 ->
+  uniq n = true -> Forall (inline_present n) fs ->
+  Forall (fun x => texts_ok (f_msgs x)) fs -> Forall macro_local n ->
+  (forall t, In t (map snd (o_reported o1)) <-> In t (map snd (o_reported o2)))
+  /\ o_unmatched o2 = o_unmatched o1 /\ o_status o2 = o_status o1 /\ o_nomsg o2 = o_nomsg o1.
+Proof. exact (thread_eq_single pm cfg n f fs wp o1 o2). Qed.
+Print Assumptions C15_parallel_eq_single_thread.
+
+Theorem C15_parallel_eq_single_process pm cfg n f fs wp o1 o2 :
+  whole_run pm None cfg n f fs wp = Some o1 -> whole_run pm (Some EProcess) cfg n f fs wp = Some o2 ->
+  uniq n = true -> Forall (inline_present n) fs ->
+  Forall (fun x => texts_ok (f_msgs x)) fs -> Forall macro_local n ->
+  (forall t, In t (map snd (o_reported o1)) <-> In t (map snd (o_reported o2)))
+  /\ o_unmatched o2 = o_unmatched o1 /\ o_status o2 = o_status o1 /\ o_nomsg o2 = o_nomsg o1.
+Proof. exact (process_eq_single pm cfg n f fs wp o1 o2). Qed.
+Print Assumptions C15_parallel_eq_single_process.
+
+(* texts_ok is necessary for the unmatched-suppression reports (replays on the binary) *)
+Theorem C15_texts_ok_necessary_refuted :
+  exists o1 o2 o3,
+    whole_run pm_eq None wq_cfg [wq_supp] [] [wq_file] [] = Some o1
+    /\ whole_run pm_eq (Some EThread) wq_cfg [wq_supp] [] [wq_file] [] = Some o2
+    /\ whole_run pm_eq (Some EProcess) wq_cfg [wq_supp] [] [wq_file] [] = Some o3
+    /\ o_unmatched o1 = [] /\ length (o_unmatched o2) = 1%nat /\ length (o_unmatched o3) = 1%nat
+    /\ map snd (o_reported o1) = map snd (o_reported o2)
+    /\ uniq [wq_supp] = true /\ Forall macro_local [wq_supp].
+Proof. exact texts_ok_necessary_refuted. Qed.
+Print Assumptions C15_texts_ok_necessary_refuted.
+
+(* macro_local is necessary for the reported findings (model only: the front ends cannot
+   produce a macro suppression without a file) *)
+Theorem C15_macro_local_necessary_refuted :
+  exists o1 o2,
+    whole_run pm_eq None wq_cfg [wm_supp] [] [wm_file] [] = Some o1
+    /\ whole_run pm_eq (Some EProcess) wq_cfg [wm_supp] [] [wm_file] [] = Some o2
+    /\ o_reported o1 = [] /\ map snd (o_reported o2) = [T_SAME].
+Proof. exact macro_local_necessary_refuted. Qed.
+Print Assumptions C15_macro_local_necessary_refuted.
+
+Example C15_eq_single_premises_inhabited :
+  (exists o1 o2 o3, whole_run pm_eq None wq_cfg [wq_supp] [] [wi_file] [] = Some o1
+                    /\ whole_run pm_eq (Some EThread) wq_cfg [wq_supp] [] [wi_file] [] = Some o2
+                    /\ whole_run pm_eq (Some EProcess) wq_cfg [wq_supp] [] [wi_file] [] = Some o3)
+  /\ uniq [wq_supp] = true /\ Forall (inline_present [wq_supp]) [wi_file]
+  /\ Forall (fun x => texts_ok (f_msgs x)) [wi_file] /\ Forall macro_local [wq_supp].
+Proof. exact eq_single_premises_inhabited. Qed.
+End EQ.
 
 (* premises are inhabited *)
 Example C15_wire_ok_inhabited : wire_ok idf m_base = true /\ printable_msg m_base = true.
